@@ -208,6 +208,9 @@ class NICObservation(AbstractObservation, discriminator="network-interface"):
             obs["NMNE"]["outbound"] = self._categorise_mne_count(outbound_count - self.nmne_outbound_last_step)
             self.nmne_inbound_last_step = inbound_count
             self.nmne_outbound_last_step = outbound_count
+        elif self.include_nmne:
+            # NMNE is part of this observation's space: when the simulation does not capture NMNE nothing was counted
+            obs["NMNE"] = {"inbound": 0, "outbound": 0}
         return obs
 
     @property
